@@ -280,6 +280,9 @@ class SoCBusHandler(LiteXModule):
                 if (origin%size_pow2):
                     origin += (size_pow2 - origin%size_pow2)
                     continue
+                # Stay inside the Address Space (a Search Region can extend beyond it).
+                if (origin + size_pow2) > 2**self.address_width:
+                    break
                 # Create a Candidate.
                 candidate = SoCRegion(origin=origin, size=size, cached=cached)
                 overlap   = False
